@@ -2,6 +2,10 @@
 """Regenerates /verif/MANIFEST.json from the table below (run after adding a check)."""
 import json, subprocess
 CHECKS = {
+ "C13": dict(level="model_checking",
+   text="Schedule exploration of the real broker: 2 (and 3) newcomers CONNECT concurrently with the incumbent's client id, all clean/unclean mixes, incumbent idle / with an open outbound handshake and a queued message behind a window of 1 / dying by EOF at the same moment / sending DISCONNECT at the same moment, a helper publishing towards the id at the same time; every schedule of the race phase within delay bound 2 (3 newcomers: 1; thorough 3 / 2). Instant clause at every accepting CONNACK (every client of the id set up earlier is terminated), at quiescence: exactly one survivor, nobody blocked in Setup, lifecycle clauses, each displaced accepted client's will exactly once and before its Terminate, and for unclean chains the queued / in-flight / concurrently published messages all reach the survivor, none offered twice as new.",
+   note="Trusted: rewriter + scheduler shims (select with several ready cases is an owned choice), codec pipe, recording backend. Set-up and epilogue run on the default schedule (vrt.Quiet); only the race phase is explored. Kill timeout never fires.",
+   technique="deviation-bounded exhaustive schedule exploration of the implementation under a controlled scheduler", design="5 (C13)"),
  "C14": dict(level="model_checking",
    text="(a) History exploration: every sequence of 2 (thorough 3) hostile events over 39 packets/frames (all 14 types with boundary ids, empty / wildcard / NUL / 64 KiB topics and filters, 64 KiB payload, 7 malformed frames, abrupt close), reconnect, and a backend hook failing at each of 8 call sites, started cold or after a valid CONNECT; (b) every sequence of 5 (thorough 7) events of a misbehaving consumer of the witnesses' own traffic; after EVERY event two witnesses exchange a QoS 1 marker which must arrive exactly once with both still connected; (c) schedule exploration: MemoryBackend.Close / Engine.Close racing with 1-2 CONNECTs, and a 3-peer connect/publish/disconnect storm with a shared client id, all schedules within delay bound 2-3. Oracles: no captured panic, no witness disturbed, threads of ended connections gone, Terminate exactly once per successful Setup, closed signal fired, no backend hook stuck.",
    note="Trusted: rewriter + scheduler shims, codec pipe, recording backend. Hostile inputs are a finite catalogue, not all byte streams (byte-level totality of the decoder is C02).",
